@@ -43,6 +43,8 @@ def check(run, tier):
          "SignatureVerify": 0.2, "MAC": 0.3, "Query": 0.1, "DiscoverVersions": 0.1}
     traces += E.random_histories(run, n, m, common.SEED, genkw={"weights": w, "users": ("alice", "bob")},
                                  restarts=0.1)
+    # text that is the identifier of no object although a lenient store would read it as one ('01', ' 1', '1.0' ...)
+    traces += E.alias_identifier_traces(quick, prefix="c07alias")
     E.judge(run, traces, only=ONLY, name="c07")
     E.summarise(run, traces)
     run.assumptions.append("process death during creation is covered by C09 (fork/kill); here restarts are clean")
